@@ -759,6 +759,22 @@ impl<'a> Run<'a> {
 		self.flush_fails();
 	}
 	fn flush_fails(&mut self) { for f in self.fails.drain(..) { self.rec.oracle_fail(f); } }
+	/// op `tlvpe`: the real `encode_tlv_stream!` on the probe fields; oracle: the real `decode_tlv_stream!` reads the same fields back
+	fn case_tlvpe(&mut self, a: u64, b: Option<u32>, c: u16, d: Option<u64>) {
+		let f = |x: Option<u64>| x.map(|v| v.to_string()).unwrap_or("-".into());
+		let op = format!("tlvpe {} {} {} {}", a, f(b.map(|x| x as u64)), c, f(d));
+		let r = guarded(AssertUnwindSafe(|| tlv_probe_enc(a, b, c, d)));
+		let ans = match &r {
+			Err(p) => { self.rec.oracle_fail(format!("panic in encode_tlv_stream! on {}: {}", op, p)); format!("panic {}", p.replace('\n', " ")) },
+			Ok(Err(_)) => "err Io".to_string(),
+			Ok(Ok(bytes)) => {
+				let back = guarded(AssertUnwindSafe(|| { let mut rd = &bytes[..]; tlv_probe(&mut rd) }));
+				match back { Ok(Ok(v)) if v == (a, b, c, d) => {}, other => self.rec.oracle_fail(format!("decode_tlv_stream!(encode_tlv_stream!(fields)) != fields for `{}`: wrote {} read back {:?}", op, hex(bytes), other.map(|x| x.map_err(|e| err_name(&e))))) }
+				hex(bytes)
+			},
+		};
+		self.rec.case(&op, &ans, &format!("tlvpe:{}{}", if b.is_some() { "b" } else { "-" }, if d.is_some() { "d" } else { "-" }), true);
+	}
 	/// op `tlvp`: the real `decode_tlv_stream!` on a bare TLV stream. `recs` = the well-framed record list the bytes were made from
 	/// (None for byte-level damage): the implementation-side oracle states the TLV rules on it without the Lean model.
 	fn case_tlvp(&mut self, bytes: &[u8], recs: Option<&[(u64, Vec<u8>)]>, kind: &str) {
@@ -835,6 +851,12 @@ fn tlv_probe<R: lightning::io::Read>(stream: &mut R) -> Result<(u64, Option<u32>
 	let mut a = 0u64; let mut b: Option<u32> = None; let mut c = 0u16; let mut d: Option<u64> = None;
 	lightning::decode_tlv_stream!(stream, { (2, a, required), (3, b, option), (6, c, required), (9, d, option) });
 	Ok((a, b, c, d))
+}
+/// the real `encode_tlv_stream!` on the probe field list
+fn tlv_probe_enc(a: u64, b: Option<u32>, c: u16, d: Option<u64>) -> Result<Vec<u8>, lightning::io::Error> {
+	let mut w: Vec<u8> = Vec::new();
+	lightning::encode_tlv_stream!(&mut w, { (2, a, required), (3, b, option), (6, c, required), (9, d, option) });
+	Ok(w)
 }
 /// width of the probe's known types
 fn tlv_probe_width(t: u64) -> Option<usize> { match t { 2 => Some(8), 3 => Some(4), 6 => Some(2), 9 => Some(8), _ => None } }
@@ -1155,6 +1177,12 @@ fn main() {
 					let recs: Vec<(u64, Vec<u8>)> = (0..11u64).filter(|t| mask >> t & 1 == 1).map(|t| mk(t, &mut rng)).collect();
 					run.case_tlvp(&join_tlvs(&recs), Some(&recs), "subset");
 				}
+			}
+			for _ in 0..40 {
+				let (a, c) = (run.g.u64b(&mut rng), run.g.u16b(&mut rng));
+				let b = if rng.chance(1, 2) { Some(run.g.u32b(&mut rng)) } else { None };
+				let d = if rng.chance(1, 2) { Some(run.g.u64b(&mut rng)) } else { None };
+				run.case_tlvpe(a, b, c, d);
 			}
 			for _ in 0..60 {
 				// mostly without the unknown even types 0, 4, 8, 10 (they end every stream early) and with both required types
